@@ -185,6 +185,11 @@ def gen_db(cfg, tier):
         tx = {"version": r.choice([1, 2, 0, 0xFFFFFFFF, 0x7FFFFFFF]), "ins": ins, "outs": outs, "locktime": r.choice([0, 1, 499999999, 500000000, 2**32 - 1, r.getrandbits(32)])}
         canon = all(is_canonical_script(i["script_sig"]) for i in ins) and all(is_canonical_script(o["spk"]) for o in outs)
         txs.append({"tx": tx, "id": tm.txid(tx).hex(), "segwit": segwit, "canonical": canon, "net": r.choice(["mainnet", "mainnet", "testnet", "signet"])})
+    if cfg.get("zero_in"):
+        # a transaction without inputs (the quantifier's lower bound), legacy format
+        outs = [{"amount": r.choice([1, 0x123456780000, r.getrandbits(40)]), "spk": tm.spk_p2wpkh(r.getrandbits(160).to_bytes(20, "big"))} for _ in range(r.choice([0, 1, 1, 2, 3]))]
+        tx = {"version": r.choice([1, 2]), "ins": [], "outs": outs, "locktime": r.choice([0, 5])}
+        txs.append({"tx": tx, "id": tm.txid(tx).hex(), "segwit": False, "canonical": True, "net": "mainnet", "zero_in": True})
     if cfg.get("tpl"):
         # one funding transaction with an output of every standard template, in a fixed order (spent by 'history' objects)
         h = r.getrandbits(256).to_bytes(32, "big")
@@ -436,9 +441,18 @@ def script_commands(raw):
     return cmds
 
 
-def build_through_api(mt, segwit):
+def build_through_api(mt, segwit, late_witness=False):
+    """late_witness: the caller builds the Tx with the constructor's defaults and only afterwards attaches the witnesses, as the
+    library's own signing helpers (finalize_p2wpkh, sign_input, ...) do; nothing asks it to flip a flag."""
     from buidl.witness import Witness
 
+    if late_witness and segwit:
+        tx_ins = [TxIn(i["txid"], i["vout"], Script(script_commands(i["script_sig"])), i["sequence"]) if i["script_sig"] else TxIn(i["txid"], i["vout"], sequence=i["sequence"]) for i in mt["ins"]]
+        tx_outs = [TxOut(o["amount"], Script(script_commands(o["spk"]))) for o in mt["outs"]]
+        t = Tx(mt["version"], tx_ins, tx_outs, mt["locktime"], network="mainnet")
+        for ti, i in zip(t.tx_ins, mt["ins"]):
+            ti.witness = Witness(list(i["witness"]))
+        return t
     tx_ins = []
     for i in mt["ins"]:
         if i["script_sig"]:
@@ -540,7 +554,7 @@ def _execute(plan, w, tr):
             else:
                 if reached and kind in ("honest", "slow") and ent["canonical"] and not st.get("unknown_id") and net in btx.URL:
                     tr.oracle("F2")
-                    fail("F2", "honest_canonical_rejected", f"honest, canonically encoded {'segwit' if ent['segwit'] else 'legacy'} response for {txid[:16]}.. was rejected: {out}")
+                    fail("F2", "honest_canonical_rejected" + ("_zero_inputs" if not ent["tx"]["ins"] else ""), f"honest, canonically encoded {'segwit' if ent['segwit'] else 'legacy'} response for {txid[:16]}.. was rejected: {out}")
                 if reached and kind in ("witness_malleated", "witness_stripped", "whitespace_upper") and ent["canonical"] and not st.get("unknown_id"):
                     tr.probe("benign_variant_rejected")
             w.check_cache("after fetch")
@@ -652,7 +666,7 @@ def _execute(plan, w, tr):
             # one Tx object (parsed from honest bytes or built through the API), a sequence of edits, and after every edit:
             # id()/hash() equal the reference txid of the mirrored model, serialize() equals the reference serialisation
             ent = w.db[st["tx"] % len(w.db)]
-            if not ent["canonical"]:
+            if not ent["canonical"] or not ent["tx"]["ins"]:
                 continue
             model = tm.clone(ent["tx"])
             segwit = ent["segwit"]
@@ -790,7 +804,9 @@ def _execute(plan, w, tr):
                 continue
             mt = ent["tx"]
             try:
-                lib_tx = build_through_api(mt, ent["segwit"])
+                lib_tx = build_through_api(mt, ent["segwit"], late_witness=bool(st.get("late_witness")))
+                if st.get("late_witness") and ent["segwit"]:
+                    tr.fault("witness_attached_after_construction")
                 raw_hex = lib_tx.serialize().hex()
                 n0 = len(w.broadcasts)
                 TxFetcher.sendrawtransaction(raw_hex, network=st.get("net", "mainnet"))
@@ -809,7 +825,7 @@ def _execute(plan, w, tr):
                 try:
                     got, sw = tm.parse_tx(bytes.fromhex(body.decode()), strict=True)
                 except Exception as e:
-                    fail("F2", "api_built_tx_unparsable", f"the explorer's strict parser rejects the bytes of an API-built transaction: {e}")
+                    fail("F2", "api_built_tx_unparsable" + ("_zero_inputs" if not mt["ins"] else ""), f"the explorer's strict parser rejects the bytes of an API-built transaction: {e}")
                     continue
                 want = tm.clone(mt)
                 if not ent["segwit"]:
@@ -817,7 +833,7 @@ def _execute(plan, w, tr):
                         i_["witness"] = []
                 if got != want:
                     diff = [k for k in ("version", "locktime") if got[k] != want[k]] + (["ins"] if got["ins"] != want["ins"] else []) + (["outs"] if got["outs"] != want["outs"] else [])
-                    fail("F2", "api_built_tx_fields_differ", f"fields {diff} of an API-built transaction differ after serialise -> strict reference parse")
+                    fail("F2", "api_built_tx_fields_differ" + ("_zero_inputs" if not mt["ins"] else ""), f"fields {diff} of an API-built transaction differ after serialise -> strict reference parse")
                 if lib_tx.id() != tm.txid(mt).hex():
                     fail("F3", "api_built_txid", "id() of an API-built transaction is not the hash of its witness-stripped serialisation")
         else:
@@ -840,7 +856,7 @@ def gen_resp(ch, enabled):
 
 
 def generate(ch, tier, prop):
-    db = {"seed": ch.randrange(1 << 30), "n": ch.randrange(2, 8), "noncanonical": ch.chance(0.3), "huge": ch.chance(0.03), "big": ch.chance(0.03 if tier == "quick" else 0.1), "tpl": ch.chance(0.6)}
+    db = {"seed": ch.randrange(1 << 30), "n": ch.randrange(2, 8), "noncanonical": ch.chance(0.3), "huge": ch.chance(0.03), "big": ch.chance(0.03 if tier == "quick" else 0.1), "tpl": ch.chance(0.6), "zero_in": ch.chance(0.15)}
     fault_free = ch.chance(0.25)
     enabled = [] if fault_free else [k for k in RESP_KINDS if ch.chance(0.45)]
     disk = (not fault_free) and ch.chance(0.4)
@@ -877,7 +893,7 @@ def generate(ch, tier, prop):
         elif r < 0.90:
             steps.append({"op": "restart"})
         elif r < 0.93:
-            steps.append({"op": "broadcast", "tx": ch.randrange(8), "net": ch.choice(["mainnet", "testnet", "signet"])})
+            steps.append({"op": "broadcast", "tx": ch.randrange(8), "net": ch.choice(["mainnet", "testnet", "signet"]), "late_witness": ch.chance(0.4)})
         elif r < 0.97:
             st = {"op": "history", "tx": ch.randrange(8), "via_api": ch.chance(0.5),
                   "edits": [{"e": ch.choice(EDIT_KINDS), "j": ch.randrange(8) if ch.chance(0.7) else 0, "v": ch.choice([0, 1, 2**32 - 1, ch.getrandbits(40)])}
@@ -914,6 +930,12 @@ def enumerate_plans(tier, prop, seed):
                                         {"op": "lazy", "tx": 0, "vout": 0, "what": "value"}], "enum": "bitrot"}
     for room in range(0, 400, 9 if tier == "quick" else 1):
         yield {"db": base_db, "steps": [{"op": "fetch", "tx": 0}, {"op": "fetch", "tx": 1}, {"op": "dump", "enospc": room}, {"op": "fetch", "tx": 0}, {"op": "restart"}, {"op": "load"}, {"op": "fetch", "tx": 1}], "enum": "enospc"}
+    # API-built transactions without inputs
+    for sd in range(6):
+        yield {"db": {"seed": 551 + seed + sd, "n": 2, "zero_in": True}, "steps": [{"op": "broadcast", "tx": 2, "net": "mainnet"}], "enum": "zero-inputs"}
+    # API-built transactions whose witnesses are attached after construction
+    for k in range(6):
+        yield {"db": {"seed": 991 + seed, "n": 6}, "steps": [{"op": "broadcast", "tx": k, "net": "mainnet", "late_witness": True}], "enum": "late-witness"}
     # object histories: every template output x witness shape x read-only use, parsed and API-built
     tdb = {"seed": 777 + seed, "n": 3, "tpl": True}
     for vout in range(5):
